@@ -43,7 +43,8 @@ Inductive case :=
 | RecvFamily (lim : nat) (s : bytes)
 | Send (orig : bool) (items : box)
 | Arg (t : ty) (v : val)
-| SendSeq (bs : list box).        (* sendBox called with each box in turn on one connection; then everything written is received *)
+| SendSeq (bs : list box)
+| DecHist (t : ty) (steps : list (bytes + val)).   (* fromString of raw bytes / of toString(value), one after the other on ONE argument object *)        (* sendBox called with each box in turn on one connection; then everything written is received *)
 
 Definition run_case (c : case) : string :=
   match c with
@@ -58,6 +59,15 @@ Definition run_case (c : case) : string :=
       let calls := map (fun b => match serialize b with Some w => "OK:" ++ show_hex w | None => "ERR:" end) bs in
       let wire := List.concat (map (fun b => match serialize b with Some w => w | None => [] end) bs) in
       String.concat " " calls ++ " => " ++ show_recv (run amp_feed amp_init [wire])
+  | DecHist t steps =>
+      String.concat " " (map (fun s =>
+        match s with
+        | inl raw => match dec t raw with Some v' => "D:" ++ show_val v' | None => "EXC" end
+        | inr v => match enc t v with
+                   | None => "ERR"
+                   | Some b => match dec t b with Some v' => "D:" ++ show_val v' | None => "EXC" end
+                   end
+        end) steps)
   | Arg t v =>
       match enc t v with
       | None => "ERR"
